@@ -1,0 +1,13 @@
+//go:build verif
+
+package fsutil
+
+// VerifSeedTempNames sets the state of the generator of the disk writer's
+// temporary names (".tmp.<suffix>"). It exists only in builds with the
+// "verif" tag: a verification harness uses it to make the names of one
+// process predictable, which is what an attacker gets by spraying.
+func VerifSeedTempNames(seed uint32) {
+	randmu.Lock()
+	rand = seed
+	randmu.Unlock()
+}
